@@ -8,6 +8,7 @@
 #include <atomic>
 #include <unistd.h>
 
+extern "C" void __sanitizer_print_stack_trace(void);
 namespace vf {
 struct Ledger {
   std::atomic<long> live{0};
@@ -18,6 +19,7 @@ struct Ledger {
   uint64_t counter = 0;
   bool armed = false;
   bool fired = false;
+  void (*on_fire)() = nullptr;   // called at the instant the chosen allocation is refused
   void arm(uint64_t n) { fail_at = n; counter = 0; armed = true; fired = false; }
   void disarm() { armed = false; fail_at = 0; }
 };
@@ -30,7 +32,7 @@ inline bool ledger_should_fail() {
   Ledger &L = ledger();
   if (!L.armed) return false;
   L.counter++;
-  if (L.fail_at && L.counter == L.fail_at) { L.fired = true; return true; }
+  if (L.fail_at && L.counter == L.fail_at) { L.fired = true; if (getenv("VERIF_FAULT_TRACE")) { static const char m[] = "REFUSED ALLOCATION at:\n"; if (write(2, m, sizeof m - 1) < 0) {} __sanitizer_print_stack_trace(); } if (L.on_fire) L.on_fire(); return true; }
   return false;
 }
 inline void *ledger_malloc(size_t n) {
